@@ -5,7 +5,39 @@ from .conn_common import replay_scenario, run_conn_check
 MON = [("spacing", CS.mon_c08)]
 
 
+def write_fault_sessions(chk):
+    """one write fails (after its first bytes went out) while further commands are queued: whatever the library does
+    about it, the next transmission it starts is still at least 100 ms later.  Only the spacing is judged here."""
+    import random
+
+    from .. import conntrace as CT
+
+    rng = random.Random(chk.seed + 808)
+    for k in range(12 if chk.tier == "quick" else 200):
+        case = {"seed": rng.randrange(1 << 30), "switch_prob": rng.choice([0.05, 0.3, 0.6]), "fail_at": rng.randrange(2, 9), "n_cmds": rng.randrange(3, 12), "latency_us": rng.choice([0, 20000, 150000])}
+        s = CT.Session(case["seed"], respond=CS.make_responder(random.Random(case["seed"]), "answer"), latency_us=case["latency_us"], switch_prob=case["switch_prob"])
+
+        def body(s, case=case):
+            c = s.connect()
+            s.port.write_fail_once_at = case["fail_at"]
+            for i in range(case["n_cmds"]):
+                c.put("MAIN", "VOL", f"-{20 + i}.0")
+            s.sleep(0.1 * case["n_cmds"] + 2.0)
+            c.close()
+
+        s.run(body)
+        chk.count_case({"write_fault": case}, True)
+        if s.sim.failure is not None:
+            continue  # not the spacing's matter
+        starts = [(e["t"], bytes(e["data"])) for e in s.sim.events if e["k"] == "Write" or (e["k"] == "WriteErr" and str(e.get("why", "")).startswith("io"))]
+        for a, b in zip(starts, starts[1:]):
+            if b[0] - a[0] < CS.SPACING:
+                chk.violation("C08:spacing-after-failed-write", f"transmissions {a[1]!r} at {a[0]} us and {b[1]!r} at {b[0]} us are only {b[0] - a[0]} us apart (one of the writes failed part-way)", {"write_fault_case": case})
+                break
+
+
 def run(chk):
+    write_fault_sessions(chk)
     return run_conn_check(
         chk, "C08", "Properties/C08.v", MON, dict(allow_delay=True, long_idle=True), 300, 6000,
         "sessions of 1-4 concurrent caller threads issuing bursts of put/get/raw with sleeps around the spacing and idle periods across keep-alive expiry, "
